@@ -62,58 +62,106 @@ func concRound(seed uint64, round int, workers int) (njobs int, diffs []string) 
 		return bases
 	}
 	bases := mkBases()
-	var jobs []concJob
-	for i := 0; i < 400; i++ {
-		j := concJob{kind: r.Intn(7), parser: r.Intn(len(parsers)), base: r.Intn(len(bases))}
-		switch r.Intn(3) {
-		case 0:
-			j.input = r.relRef()
-		default:
-			j.input = r.anyInput()
+	// every input is run under EVERY shared parser and profile (option-specific code paths such as the
+	// single-percent-sign, invalid-code-point and lax-host branches are only reached by the right pair)
+	inputs := []string{"http://example.com/100%", "data:100%,x", "http://h/%zz/%", "http://u%:p%@h/", "http://\xff\xfe/", "http://h/\xff?\xfe#\xfd",
+		"http://a b/", "http://h//a//b/../c", "http://EXAMPLE.com:80/a/./b/../c?b=2&a=1#f", "http://h/?%ff=1&\U0001F600=1&a=%41", "file:///C|/x", "HTTP://U:P@H:8080/%7e?q=%2541#%23%23x",
+		"http://[::1]/", "http://0x7f.1/", "http://xn--bcher-kva.example/", "http://a\u2260b/", "sc://h/p?q#f", "//h/x", "x/../y", "?q", "#f", "", "c|/x", "\\\\h\\x"}
+	for len(inputs) < 60 {
+		if r.Chance(1, 2) {
+			inputs = append(inputs, r.anyInput())
+		} else {
+			inputs = append(inputs, r.relRef())
 		}
-		jobs = append(jobs, j)
 	}
-	run := func(j concJob) string {
-		o := guard(func() Obs {
-			b := bases[j.base]
-			switch j.kind {
-			case 0:
-				return implObs(url.Parse(j.input))
-			case 1:
-				return implObs(url.ParseRef(b.Href(false), j.input))
-			case 2:
-				return implObs(parsers[j.parser].Parse(j.input))
-			case 3:
-				return implObs(b.Parse(j.input))
-			case 4:
-				return implObs(parsers[3+j.parser%4].Parse(j.input))
-			case 5:
-				return implObs(parsers[3+j.parser%4].ParseRef(b.Href(false), j.input))
+	var jobs []concJob
+	for _, in := range inputs {
+		for p := range parsers {
+			jobs = append(jobs, concJob{kind: 2, parser: p, input: in})
+		}
+		jobs = append(jobs, concJob{kind: 0, input: in}, concJob{kind: 1, base: r.Intn(len(bases)), input: in},
+			concJob{kind: 3, base: r.Intn(len(bases)), input: in}, concJob{kind: 5, parser: r.Intn(4), base: r.Intn(len(bases)), input: in},
+			concJob{kind: 6, base: r.Intn(len(bases))})
+	}
+	// The workers are long-lived goroutines and call the library directly: no goroutine per call, no
+	// formatting, channel or pool operation between calls (each of those is a synchronisation the race
+	// detector would honour, hiding a race between a first writing and a later reading access); results
+	// are kept as values and compared after the join. All workers walk the job list in the SAME order
+	// behind a start barrier, so that first uses (lazy initialisation) happen simultaneously.
+	type rawRes struct {
+		u   *url.Url
+		err error
+		pan interface{}
+	}
+	exec := func(j concJob) (res rawRes) {
+		defer func() {
+			if r := recover(); r != nil {
+				res.pan = r
 			}
-			return Obs{Kind: "U", Fields: append(urlFields(b), b.String())}
-		})
-		return o.String()
+		}()
+		b := bases[j.base]
+		switch j.kind {
+		case 0:
+			res.u, res.err = url.Parse(j.input)
+		case 1:
+			res.u, res.err = url.ParseRef(b.Href(false), j.input)
+		case 2:
+			res.u, res.err = parsers[j.parser].Parse(j.input)
+		case 3:
+			res.u, res.err = b.Parse(j.input)
+		case 4:
+			res.u, res.err = parsers[3+j.parser%4].Parse(j.input)
+		case 5:
+			res.u, res.err = parsers[3+j.parser%4].ParseRef(b.Href(false), j.input)
+		default:
+			// getters of the shared base
+			_ = b.Href(false) + b.Protocol() + b.Username() + b.Password() + b.Host() + b.Hostname() + b.Port() + b.Pathname() + b.Search() + b.Hash() + b.String()
+			_, _, _, _, _ = b.IsIPv4(), b.IsIPv6(), b.DecodedPort(), b.OpaquePath(), b.IsSpecialScheme()
+			res.u = b
+		}
+		return res
+	}
+	show := func(j concJob, r rawRes) string {
+		if r.pan != nil {
+			return "PANIC " + fmt.Sprint(r.pan)
+		}
+		if j.kind == 6 {
+			return Obs{Kind: "U", Fields: append(urlFields(r.u), r.u.String())}.String()
+		}
+		return implObs(r.u, r.err).String()
 	}
 	fp := tableFingerprint()
-	par := make([][]string, workers)
+	raw := make([][]rawRes, workers)
 	var wg sync.WaitGroup
+	start := make(chan struct{})
 	for w := 0; w < workers; w++ {
-		par[w] = make([]string, len(jobs))
+		raw[w] = make([]rawRes, len(jobs))
 		wg.Add(1)
 		go func(w int) {
 			defer wg.Done()
-			// every worker runs every job (maximal sharing), staggered
-			for k := 0; k < len(jobs); k++ {
-				i := (k + w*len(jobs)/workers) % len(jobs)
-				par[w][i] = run(jobs[i])
+			<-start
+			for i := range jobs {
+				raw[w][i] = exec(jobs[i])
 			}
 		}(w)
 	}
+	close(start)
 	wg.Wait()
+	par := make([][]string, workers)
+	for w := range raw {
+		par[w] = make([]string, len(jobs))
+		for i := range jobs {
+			if jobs[i].kind != 6 {
+				par[w][i] = show(jobs[i], raw[w][i])
+			}
+		}
+	}
 	bases = mkBases()
 	seq := make([]string, len(jobs))
 	for i, j := range jobs {
-		seq[i] = run(j)
+		if j.kind != 6 {
+			seq[i] = show(j, exec(j))
+		}
 	}
 	for w := range par {
 		for i := range jobs {
@@ -209,7 +257,7 @@ func init() {
 			}
 			c.Sample(map[string]string{"kind": "concurrent round", "shape": "400 jobs (url.Parse, url.ParseRef, Parser.Parse, base.Parse(ref), profile Parse/ParseRef, getters of a shared base) run by every one of N goroutines on 7 shared parsers/profiles and 30+ shared base URLs"})
 		},
-		rule: "rounds of 400 mixed read-only calls, each executed alone and then by every one of N goroutines (N = cores in process, 8 under the race detector) on shared parsers, the four predefined profiles and shared base URL values (some with, some without search parameters already created); results compared with the sequential ones; every exported table and profile fingerprinted before and after; the same rounds are re-run in a binary built with -race and its reports are collected",
+		rule: "rounds of ~700 read-only calls (60 inputs, among them one per option-specific code path, each under every one of 7 shared parsers/profiles, plus url.Parse, url.ParseRef, base.Parse(ref), profile ParseRef and getters on shared bases), each executed alone and then by every one of N goroutines (N = cores in process, 8 under the race detector) on shared parsers, the four predefined profiles and shared base URL values (some with, some without search parameters already created); results compared with the sequential ones; every exported table and profile fingerprinted before and after; the same rounds are re-run in a binary built with -race and its reports are collected",
 		trusted: []string{"the Go race detector (ThreadSanitizer run time) as the dynamic form of the footprint-disjointness predicate",
 			"gen/effects translator (go/types) and the reviewed table of library effects"},
 	}
